@@ -6,6 +6,7 @@ from __future__ import annotations
 
 import json
 import os
+import sys
 
 from . import frames, model, sim
 from .sim import CANON, ROOT, S, violation
@@ -778,14 +779,23 @@ def c09_range_hook(driver):
 
             if ls_ and 0 <= pos_["line"] < len(ls_) and _re.match(r"\s*include\s*['\"]", ls_[pos_["line"]], _re.I):
                 qual = " on an INCLUDE statement"
-            elif what.endswith("/definition") and isinstance(payload, dict) and payload.get("uri") != \
-                    m_["params"]["textDocument"]["uri"] and payload.get("range") == {
-                        "start": {"line": pos_["line"], "character": 0}, "end": {"line": pos_["line"], "character": 0}}:
-                # the same call site seen from the answer: the link a server builds for a line it
-                # (still) holds to be an INCLUDE statement is '<included file>, <the statement's own
-                # line>, column 0' - also when an in-line edit has meanwhile turned the line into
-                # something else without a re-parse
-                qual = " on an INCLUDE statement"
+            elif what.endswith("/definition") and isinstance(payload, dict) and isinstance(payload.get("range"), dict) \
+                    and payload.get("uri") != m_["params"]["textDocument"]["uri"] \
+                    and payload["range"].get("start") == payload["range"].get("end") \
+                    and payload["range"]["start"].get("character") == 0:
+                # the same call site seen from the answer: find_in_scope turns any quoted string that
+                # equals the path of an INCLUDE statement of the document into Include(<included
+                # file>, <that statement's line>) - a zero-width link at column 0 of the included
+                # file; recognised when the document really has an INCLUDE statement for that file
+                tgt_ = os.path.basename(frames.uri_decode(payload["uri"]))
+                # (the model of the document may be masked after an edit the model cannot follow:
+                # then the last text the server was told about / the file stand in for it)
+                txt_ = "\n".join(ls_ or []) + "\n" + driver.told.get(path_, b"").decode("utf-8", "replace") + "\n" + \
+                    driver.world.files.get(path_, b"").decode("utf-8", "replace")
+                incs_ = {os.path.basename(x.strip()) for x in
+                         _re.findall(r"(?im)^\s*include\s*['\"]([^'\"]*)", txt_)}
+                if tgt_ in incs_ or any(tgt_ == os.path.basename(x) for x in incs_):
+                    qual = " on an INCLUDE statement"
         except Exception:
             pass
         for uri, rng, key in pairs:
